@@ -681,10 +681,11 @@ def gen_gpoly_case(rng, big=False):
         dx, dy = rng.choice(xs), rng.choice(ys)
         xs, ys = [x - dx for x in xs], [y - dy for y in ys]
     elif place == "anchor":           # one corner of the polygon exactly at a padding-like point
-        anchor = rng.randrange(len(pts))
+        k = rng.randrange(len(pts))
         tx, ty = rng.choice(PADDING_LIKE)
-        dx, dy = xs[pts[anchor][0]] - tx, ys[pts[anchor][1]] - ty
+        dx, dy = xs[pts[k][0]] - tx, ys[pts[k][1]] - ty
         xs, ys = [x - dx for x in xs], [y - dy for y in ys]
+        anchor = [F(tx), F(ty)]
     allint = all(v.denominator == 1 for v in xs + ys)
     short = all(abs(v) < 2 ** 17 and v.denominator in (1, 2, 4) for v in xs + ys)
     forms = list(FORMS_ANY) * 2
@@ -722,7 +723,7 @@ def gen_probe_cases(rng, npoly):
                 dx, dy = xs0[pts[k][0]] - tx, ys0[pts[k][1]] - ty
                 for where in ("last", "first"):
                     yield {"kind": "gpoly", "gen": "probe", "mode": "int", "place": "anchor", "rows": to_rows(m),
-                           "xs": [x - dx for x in xs0], "ys": [y - dy for y in ys0], "rev": rev, "anchor": k,
+                           "xs": [x - dx for x in xs0], "ys": [y - dy for y in ys0], "rev": rev, "anchor": [F(tx), F(ty)],
                            "where": where, "rot": 0, "closed": False, "twice": False,
                            "repr": rng.choice(["array_f64", "array_i64", "array_f32", "array_i32", "rows", "point_int"])}
 
@@ -731,11 +732,11 @@ def gpoly_vertices(c):
     m = [[ch == "1" for ch in row] for row in c["rows"]]
     idx = outline(m)
     pts = [(c["xs"][a], c["ys"][b]) for a, b in idx]
-    anchor = pts[c["anchor"]] if c.get("anchor") is not None and c["anchor"] < len(pts) else None
+    anchor = tuple(c["anchor"]) if c.get("anchor") is not None else None      # a corner, by its coordinates
     if c.get("rev"):
         pts.reverse()
     k = c.get("rot", 0) % len(pts)
-    if anchor is not None and c.get("where") in ("first", "last"):
+    if anchor in pts and c.get("where") in ("first", "last"):
         k = pts.index(anchor) + (1 if c["where"] == "last" else 0)
     pts = pts[k:] + pts[:k]
     if c.get("closed"):
@@ -1113,13 +1114,18 @@ def shrink(case):
         return
     if case["kind"] == "gpoly":
         rows, xs, ys = case["rows"], case["xs"], case["ys"]
-        base = dict(case, anchor=None, where="any")
-        if len(rows) > 1:
+        cands = []
+        if len(rows) > 1:       # drop a row / a column together with one of its two grid lines
             for k in range(len(rows)):
-                yield dict(base, rows=rows[:k] + rows[k + 1:], ys=ys[:k] + ys[k + 1:], gen="shrunk")
+                for d in (0, 1):
+                    cands.append(dict(case, rows=rows[:k] + rows[k + 1:], ys=ys[:k + d] + ys[k + d + 1:], gen="shrunk"))
         if len(rows[0]) > 1:
             for k in range(len(rows[0])):
-                yield dict(base, rows=[r[:k] + r[k + 1:] for r in rows], xs=xs[:k + 1] + xs[k + 2:], gen="shrunk")
+                for d in (0, 1):
+                    cands.append(dict(case, rows=[r[:k] + r[k + 1:] for r in rows], xs=xs[:k + d] + xs[k + d + 1:], gen="shrunk"))
+        for c in cands:         # only shapes whose outline is still one simple polygon
+            if outline([[ch == "1" for ch in r] for r in c["rows"]]) is not None:
+                yield c
         for flag in ("rev", "closed", "twice"):
             if case.get(flag):
                 yield dict(case, **{flag: False})
@@ -1162,7 +1168,7 @@ def dist_key(case):
     if case["kind"] == "inside":
         return "point-inside/" + case.get("sub", "?")
     if case["kind"] == "gpoly":
-        return "polygon/" + case.get("repr", "?") + "/" + case.get("mode", "?") + "/" + case.get("place", "?")
+        return "polygon/" + case.get("repr", "?") + "/" + ("decimal" if case.get("mode") == "decimal" else case.get("place", "?"))
     return "polygon/" + ("cw" if case.get("rev") else "ccw") + "/" + case.get("repr", "?")
 
 
